@@ -56,7 +56,7 @@ namespace rkcommon {
 
     void FixedBufferWriter::write(const void *mem, size_t size)
     {
-      if (cursor + size >= buffer->size()) {
+      if (size > buffer->size() - cursor) {
         throw std::runtime_error(
             "FixedBufferWriter::write size exceeds buffer");
       }
@@ -67,7 +67,7 @@ namespace rkcommon {
 
     void *FixedBufferWriter::reserve(size_t size)
     {
-      if (cursor + size >= buffer->size()) {
+      if (size > buffer->size() - cursor) {
         throw std::runtime_error(
             "FixedBufferWriter::reserve size exceeds buffer");
       }
